@@ -376,8 +376,12 @@ def run(ctx):
             for fn in sorted(os.listdir(cdir)):
                 c = json.load(open(os.path.join(cdir, fn)))
                 recs.append(one(ctx, r, atoms, work, (scenario_from_json(c["scenario"]), c["opts"], c["desc"])))
+        bad = 0
         for _ in range(ctx.pick(300, 6000)):
             recs.append(one(ctx, r, atoms, work))
+            bad += int("crash" in recs[-1] or bool(recs[-1].get("oracle")))
+            if bad >= 8:      # enough failing inputs: stop early (a leak between in-process runs makes every further run slower)
+                break
     finally:
         shutil.rmtree(work, ignore_errors=True)
     fails, terms, idx = [], [], []
